@@ -188,7 +188,7 @@ func (e treeEngine) Run(ctx *RunCtx) {
 		switch kind {
 		case -1:
 			d.Notify("textDocument/didOpen", w.Open(c, doc))
-			if !workspace && doc.DiskMark >= 0 {
+			if !workspace {
 				// keep disk and buffer of a possibly included file in step
 				d.Notify("textDocument/didSave", w.Save(doc))
 			}
@@ -196,15 +196,12 @@ func (e treeEngine) Run(ctx *RunCtx) {
 		case 0:
 			p, how := w.Change(c, doc)
 			d.Notify("textDocument/didChange", p)
-			if !workspace && doc.DiskMark >= 0 {
+			if !workspace {
 				d.Notify("textDocument/didSave", w.Save(doc))
 				how += ", saved"
 			}
 			ctx.T("op%d didChange d%d -> v%d (%s) includes=%v", op, doc.No, doc.Marker, how, doc.Includes)
 		case 1:
-			if doc.No == 4 && !workspace {
-				continue
-			}
 			sp := w.Save(doc)
 			if workspace && doc.MaxMark > 0 && c.Pct("ext-write-before-didSave", 20) {
 				// another program rewrites the file between the editor's write and its
